@@ -5,4 +5,4 @@ From GV Require Import model.Catalog model.Storage.
 Extraction "extract/catalog_model.ml"
   Catalog.step_impl Catalog.step Catalog.new_engine Catalog.no_oracle Catalog.fails_at_runtime Catalog.is_self_insert
   Storage.run Storage.run_order Storage.self_insert Storage.Old.self_insert Storage.writers Storage.start_scan Storage.total_rows
-  Storage.complete Storage.insert_count Storage.iotaN Storage.all_rows Storage.scan_output Storage.lenN.
+  Storage.bulk Storage.batches_of Storage.seg_appends Storage.chunk_rows Storage.complete Storage.insert_count Storage.iotaN Storage.all_rows Storage.scan_output Storage.lenN.
